@@ -45,6 +45,8 @@ var c12Universe = []string{
 	"x => x", "x => x + 1", "func(a, b) {a}", "y => y", "min", "max", "quote(1)", "quote(a + b)", "quote(1 + 1)",
 	"[x => x]", "{1: x => x}", "[quote(1)]", "[max]",
 	"1 << 62", "3", "-2", "2.5", "-1.5", `"1"`, "[0]", "[0.0]", "[-0.0]",
+	// closures with the same text over different captured values
+	"(n => (x => x + n))(1)", "(n => (x => x + n))(2)", "[(n => (x => x + n))(1)]", "{1: (n => (x => x + n))(2)}",
 	// large maps whose integer keys are further apart than 2^63, written in different orders (equal by construction, see c12SamePairs)
 	"{-5: 1, -4: 2, -3: 3, -2: 4, -1: 5, 9223372036854775807: 6}", "{9223372036854775807: 6, -1: 5, -2: 4, -3: 3, -4: 2, -5: 1}",
 	"{-9223372036854775807 - 1: 0, 1: 1, 2: 2, 3: 3, 4: 4, 5: 5}", "{5: 5, 4: 4, 3: 3, 2: 2, 1: 1, -9223372036854775807 - 1: 0}",
